@@ -45,8 +45,10 @@ Section Squashed.
     destruct (step_squashed_returned legacy aa fd prev car fo Hd Hwa Hnd Step Hwe Rs) as (sg & Isg & _ & H).
     exists sg. split; [exact Isg|]. intros pre mn post fv name frag Em Ef El.
     destruct (H pre mn post fv name frag Em Ef El) as (cf0 & Icf & Hn & _). exists cf0. split; [exact Icf|].
-    intros n Hin. destruct (Hn n Hin) as (A & B & l & lm & Fl & Il & _ & _ & _ & K).
-    split; [exact A|]. split; [exact B|]. split; [exists l; split; assumption|exact K].
+    intros n Hin. destruct (Hn n Hin) as (A & B & l & lm & Fl & Il & Rest).
+    split; [exact A|]. split; [exact B|]. split; [exists l; split; assumption|].
+    (* the attribute clause is the LAST conjunct of the resolver component's statement, however many precede it *)
+    repeat match type of Rest with _ /\ _ => destruct Rest as [_ Rest] end. exact Rest.
   Qed.
 End Squashed.
 
